@@ -78,7 +78,8 @@ def c11(case, det):
     feat = _feat(case)
     # KF-25: the same scalar-subquery text occurs under the select alias (THEN branch) and anonymously (WHEN branch) of one CASE:
     # one SubQuery node (equality is textual) printed under whichever alias the set yields first
-    if feat["case_subquery_aliases"] and fields <= {"cyto_column", "column_paths"}:
+    extra_fields = {"column_paths_incl_subquery", "column_paths_no_subquery_columns"}
+    if feat["case_subquery_aliases"] and fields <= {"cyto_column", "column_paths"} | extra_fields:
         names = set(feat["case_subquery_aliases"])
         ok = True
         if "cyto_column" in a:
@@ -90,16 +91,17 @@ def c11(case, det):
             for e in edges:
                 if not any("subquery#" in x or x.split(".")[0] in names for x in e):
                     ok = False
-        if "column_paths" in a:
-            for p in [x for x in a["column_paths"] if x not in b["column_paths"]] + [x for x in b["column_paths"] if x not in a["column_paths"]]:
-                if not any("subquery#" in c or c.split(".")[0] in names for c in p):
-                    ok = False
+        for fld in ("column_paths", "column_paths_incl_subquery", "column_paths_no_subquery_columns"):
+            if fld in a:
+                for p in [x for x in a[fld] if x not in b[fld]] + [x for x in b[fld] if x not in a[fld]]:
+                    if not any("subquery#" in c or c.split(".")[0] in names for c in p):
+                        ok = False
         if ok:
             return "KF-25"
     # KF-17: SELECT * over a join of tables whose metadata share a column name: the shared name is attributed to
     # whichever table the set yields first
     md = case.get("metadata") or {}
-    if md and "*" in case["sql"] and fields <= {"cyto_column", "column_paths"}:
+    if md and "*" in case["sql"] and fields <= {"cyto_column", "column_paths"} | extra_fields:
         shared = {}
         for t, cols in md.items():
             for c in cols:
@@ -111,10 +113,11 @@ def c11(case, det):
             return c in shared and t in shared[c]
 
         ok = bool(shared)
-        if "column_paths" in a:
-            for p in [x for x in a["column_paths"] if x not in b["column_paths"]] + [x for x in b["column_paths"] if x not in a["column_paths"]]:
-                if not col_ok(p[0]):
-                    ok = False
+        for fld in ("column_paths", "column_paths_incl_subquery", "column_paths_no_subquery_columns"):
+            if fld in a:
+                for p in [x for x in a[fld] if x not in b[fld]] + [x for x in b[fld] if x not in a[fld]]:
+                    if not col_ok(p[0]):
+                        ok = False
         if "cyto_column" in a:
             nodes, edges = _cyto_diff(a["cyto_column"], b["cyto_column"])
             for n in nodes:
